@@ -47,7 +47,7 @@ def run_tlc(module, cfg_text, wd, workers=16, extra_modules=(), env=None, simula
         fh.write(cfg_text)
     meta = os.path.join(wd, "meta")
     shutil.rmtree(meta, ignore_errors=True)
-    cmd = ["java", "-XX:+UseParallelGC", "-Xmx" + heap]
+    cmd = ["java", "-Xss256m", "-XX:+UseParallelGC", "-Xmx" + heap]      # deep TLA+ recursion (folds over files) needs stack; -Xss must be on the command line
     for o in (javaopts or []):
         cmd.append(o)
     cmd += ["-cp", JAR, "tlc2.TLC", "-workers", str(workers), "-metadir", meta,
